@@ -60,7 +60,8 @@ Definition explain (lines : list (list N)) (o : obs) : N :=
   let ln := line_at lines (sl r) in
   let reqln := line_at lines (o_pl o) in
   if (4294967295 <=? el r) || (4294967295 <=? ec r) then 1%N                         (* directive_range_end_unset *)
-  else if (has_nonbmp ln || has_nonbmp (line_at lines (el r))) &&
+  else if negb (o_feat o =? 10)%N &&                                                  (* completion edits are computed in UTF-16 units: not this finding *)
+          (has_nonbmp ln || has_nonbmp (line_at lines (el r))) &&
           (obs_mask lines (mkObs (o_feat o) (o_pl o) (o_pc o) (as_rune_columns lines r) (o_text o) (o_code o)) =? 0)%N
        then 2%N                                                                        (* nonbmp_rune_columns: right when read as rune columns *)
   else if (o_code o =? 2)%N && negb ((o_feat o =? 1)%N) then 4%N                      (* payee_range_is_an_estimate *)
